@@ -81,7 +81,7 @@ func concObserver(kind string, op *fstxn.FsTxn, arg uint64) {
 	}
 	c := v.(*concClient)
 	seq := atomic.AddUint64(&evSeq, 1)
-	c.events = append(c.events, evRec{seq: seq, kind: kind, arg: arg, txn: txnID(op)})
+	c.events = append(c.events, evRec{seq: seq, kind: kind, arg: arg, txn: txnID(kind, op)})
 	if (kind == "commit-start") && c.wantDir != nil {
 		// all locks are held: read the slot the new name went to from the directory's name cache
 		func() {
@@ -141,7 +141,27 @@ func lockTrace(evs []evRec) string {
 	return strings.Join(parts, " | ")
 }
 
-func txnID(op *fstxn.FsTxn) uintptr { return uintptr(unsafe.Pointer(op)) }
+// txnID names the transaction an event belongs to.  The address of the FsTxn is not a name: the
+// allocator reuses it once the transaction is garbage, and two transactions of one request were
+// then rendered as one (a false "not two-phase").  A fresh number is drawn at every "begin".
+var (
+	txnMu   sync.Mutex
+	txnCur  = map[uintptr]uintptr{}
+	txnNext uintptr
+)
+
+func txnID(kind string, op *fstxn.FsTxn) uintptr {
+	p := uintptr(unsafe.Pointer(op))
+	txnMu.Lock()
+	defer txnMu.Unlock()
+	id, ok := txnCur[p]
+	if kind == "begin" || !ok {
+		txnNext++
+		id = txnNext
+		txnCur[p] = id
+	}
+	return id
+}
 
 // seqObserver collects the events of the operation a sequential run is issuing
 // (and of background shrinker transactions that run meanwhile).
@@ -152,7 +172,7 @@ var (
 
 func seqObserver(kind string, op *fstxn.FsTxn, arg uint64) {
 	seqEvMu.Lock()
-	seqEvBuf = append(seqEvBuf, evRec{seq: atomic.AddUint64(&evSeq, 1), kind: kind, arg: arg, txn: txnID(op)})
+	seqEvBuf = append(seqEvBuf, evRec{seq: atomic.AddUint64(&evSeq, 1), kind: kind, arg: arg, txn: txnID(kind, op)})
 	seqEvMu.Unlock()
 }
 
